@@ -651,7 +651,6 @@ pub fn gen_trace(prop: &str, run_seed: u64) -> (Trace, GenStats) {
             add_cache_resets(&mut trace, &mut rng, &mut stats);
             if prop == "C06" {
                 add_tiny_bursts(&mut trace, &mut rng, &mut stats);
-                add_template_fleet(&mut trace, run_seed, &mut stats);
             }
         }
         "C01" => {
